@@ -107,9 +107,20 @@ func vValName(v []byte) string {
 func vVal(fill byte, n int) []byte { return bytes.Repeat([]byte{fill}, n) }
 
 type vTrieState struct {
-	t *InMemoryTrie
-	m ref.OMap
-	v trie.TrieLayout
+	t    *InMemoryTrie
+	m    ref.OMap
+	v    trie.TrieLayout
+	soft []verifmc.Violation
+}
+
+func (s *vTrieState) softf(sig, format string, a ...any) {
+	s.soft = append(s.soft, verifmc.Violation{Sig: sig, Desc: fmt.Sprintf(format, a...)})
+}
+
+func vDrainSoft(s *vTrieState) []verifmc.Violation {
+	out := s.soft
+	s.soft = nil
+	return out
 }
 
 func vVersionInt(v trie.TrieLayout) int {
@@ -119,9 +130,47 @@ func vVersionInt(v trie.TrieLayout) int {
 	return 0
 }
 
+func vNibbles(k []byte) []byte {
+	out := make([]byte, 0, 2*len(k))
+	for _, b := range k {
+		out = append(out, b>>4, b&0xf)
+	}
+	return out
+}
+
+// vTrimmedPrefixKeys: the keys whose nibble form starts with the nibbles of p minus one
+// trailing zero nibble (what the code matches instead of the byte prefix p).
+func vTrimmedPrefixKeys(m ref.OMap, p []byte) []string {
+	n := vNibbles(p)
+	if len(n) > 0 && n[len(n)-1] == 0 {
+		n = n[:len(n)-1]
+	}
+	var out []string
+	for _, k := range m.Keys() {
+		if bytes.HasPrefix(vNibbles([]byte(k)), n) {
+			out = append(out, k)
+		}
+	}
+	return out
+}
+
+func vZeroLowNibble(p []byte) bool { return len(p) > 0 && p[len(p)-1]&0x0f == 0 }
+
+// vResync makes the model follow the real object after a mutator mismatch that was
+// reported (soft), so that exploration continues from the state the code is really in.
+func vResync(s *vTrieState) {
+	m := ref.OMap{}
+	for k, v := range s.t.Entries() {
+		m[k] = append([]byte{}, v...)
+	}
+	s.m = m
+}
+
 // vApplyTrieOp applies one mutator to the real trie and to the ordered-map model and
-// compares the results of the call.
+// compares the result of the call and the contents afterwards.  A mismatch is reported with a
+// signature naming its exact shape; the model is then re-synchronised.
 func vApplyTrieOp(s *vTrieState, o vTrieOp) string {
+	before := s.m.Clone()
 	switch o.kind {
 	case "put":
 		if err := s.t.Put(o.k, o.v); err != nil {
@@ -141,6 +190,7 @@ func vApplyTrieOp(s *vTrieState, o vTrieOp) string {
 		if want := ref.TrieRoot(s.m, vVersionInt(s.v)); !bytes.Equal(h[:], want) {
 			return fmt.Sprintf("Hash: root %x, spec root %x for %s", h[:], want, vMapString(s.m))
 		}
+		return ""
 	case "clearPrefix":
 		if err := s.t.ClearPrefix(o.k); err != nil {
 			return "ClearPrefix: unexpected error " + err.Error()
@@ -152,13 +202,129 @@ func vApplyTrieOp(s *vTrieState, o vTrieOp) string {
 			return "ClearPrefixLimit: unexpected error " + err.Error()
 		}
 		wdel, wall := s.m.ClearPrefixLimit(string(o.k), o.limit)
-		if del != wdel || all != wall {
-			return fmt.Sprintf("ClearPrefixLimit(%x,%d): returned (deleted=%d, allDeleted=%t), ordered map gives (%d, %t)", o.k, o.limit, del, all, wdel, wall)
+		got := ref.OMap(s.t.Entries())
+		if del == wdel && all == wall && s.m.Equal(got) {
+			return ""
 		}
+		desc := fmt.Sprintf("ClearPrefixLimit(%x,%d) on %s: returned (deleted=%d, allDeleted=%t) leaving %s; ordered map gives (%d, %t) leaving %s",
+			o.k, o.limit, vMapString(before), del, all, vMapString(got), wdel, wall, vMapString(s.m))
+		s.softf("ClearPrefixLimit:"+vClassifyLimit(before, got, o, del, all), "%s", desc)
+		vResync(s)
+		return ""
 	default:
 		panic("unknown op " + o.kind)
 	}
+	got := ref.OMap(s.t.Entries())
+	if s.m.Equal(got) {
+		return ""
+	}
+	desc := fmt.Sprintf("%s on %s: trie now holds %s, ordered map holds %s", o.Name(), vMapString(before), vMapString(got), vMapString(s.m))
+	switch o.kind {
+	case "delete":
+		// shape: deleting an absent key removed exactly one key that strictly extends it
+		_, present := before[string(o.k)]
+		removed := vDiffKeys(before, got)
+		if !present && len(got) == len(before)-1 && len(removed) == 1 &&
+			bytes.HasPrefix(vNibbles([]byte(removed[0])), vNibbles(o.k)) && vSubset(got, before) {
+			s.softf("Delete:absent-key-removes-a-key-it-prefixes", "%s", desc)
+		} else {
+			s.softf("Delete:wrong-contents", "%s", desc)
+		}
+	case "clearPrefix", "clearPrefixLimit":
+		exp := before.Clone()
+		if o.kind == "clearPrefix" {
+			for _, k := range vTrimmedPrefixKeys(before, o.k) {
+				delete(exp, k)
+			}
+		}
+		if o.kind == "clearPrefix" && vZeroLowNibble(o.k) && exp.Equal(got) {
+			s.softf("ClearPrefix:zero-low-nibble-prefix-trimmed", "%s", desc)
+		} else {
+			s.softf(strings.ToUpper(o.kind[:1])+o.kind[1:]+":wrong-contents", "%s", desc)
+		}
+	default:
+		return desc
+	}
+	vResync(s)
 	return ""
+}
+
+// vClassifyLimit names the exact shape of a limited-clear mismatch: which matching rule (byte
+// prefix, or prefix without its trailing zero nibble) and which deviations (not the smallest
+// keys; "all deleted" reported false for limit 0) explain the observed outcome completely.
+func vClassifyLimit(before, got ref.OMap, o vTrieOp, del uint32, all bool) string {
+	removed := vDiffKeys(before, got)
+	if !vSubset(got, before) {
+		return "wrong-result"
+	}
+	type cand struct {
+		name string
+		x    []string
+	}
+	cands := []cand{{"", before.WithPrefix(string(o.k))}}
+	if vZeroLowNibble(o.k) {
+		cands = append(cands, cand{"zero-low-nibble-prefix-trimmed", vTrimmedPrefixKeys(before, o.k)})
+	}
+	for _, c := range cands {
+		n := int(o.limit)
+		if len(c.x) < n {
+			n = len(c.x)
+		}
+		inX := map[string]bool{}
+		for _, k := range c.x {
+			inX[k] = true
+		}
+		ok := len(removed) == n && int(del) == n
+		for _, k := range removed {
+			ok = ok && inX[k]
+		}
+		if !ok {
+			continue
+		}
+		var flags []string
+		if c.name != "" {
+			flags = append(flags, c.name)
+		}
+		for i, k := range removed { // removed is sorted
+			if k != c.x[i] {
+				flags = append(flags, "not-the-smallest-keys")
+				break
+			}
+		}
+		wantAll := len(c.x) == n
+		if all != wantAll {
+			if o.limit == 0 && !all {
+				flags = append(flags, "limit0-none-matching-reports-not-all-deleted")
+			} else {
+				continue
+			}
+		}
+		if len(flags) == 0 {
+			return "wrong-result"
+		}
+		return strings.Join(flags, "+")
+	}
+	return "wrong-result"
+}
+
+func vDiffKeys(a, b ref.OMap) []string {
+	var out []string
+	for _, k := range a.Keys() {
+		if _, ok := b[k]; !ok {
+			out = append(out, k)
+		}
+	}
+	return out
+}
+
+func vSubset(a, b ref.OMap) bool {
+	for k, v := range a {
+		w, ok := b[k]
+		if !ok || !bytes.Equal(v, w) {
+			return false
+		}
+	}
+	return true
 }
 
 func vMapString(m ref.OMap) string {
